@@ -13,8 +13,8 @@ import (
 
 func init() {
 	register(&propDef{
-		id:  "C18",
-		run: runC18,
+		id:          "C18",
+		run:         runC18,
 		explanation: "Static analysis of ownership and lifecycle: (1) every exported *DB method that can fail tests the closed flag before touching the session, channels or storage (exhaustive over the method set from go/types, through at most one wrapper); Close is gated by the closed flag's compare-and-swap so a second Close does nothing; (2) snapshot handles test their own released flag under their lock before the DB's; (3) one owner: newSession takes the storage lock first, Open/Recover release it on failure in a deferred handler, Close releases it after tearing down the session, and both storage implementations grant the lock only when it is free and free it on Unlock; (4) every iterator movement method tests the released state first; (5) read-only never mutates: openDB takes the mutating branches (journal recovery with commit, file sweep, compaction goroutines) only when not read-only, Open never creates a manifest when read-only, no function reachable from the read-only recovery path calls Create/Remove/Rename/SetMeta/Write/Sync (call-graph reachability), and every mutator of the file storage returns the read-only error first; (6) a read-only DB rejects writes: every select that acquires the write lock listens for the persistent error, which SetReadOnly installs. Necessary conditions only: races of calls with Close and 'mutates nothing once drained' (timing) are NOT decided.",
 		notCovered:  "races of API calls with a concurrent Close; that background work has drained (timing); OS-level file locking semantics",
 		assumptions: []string{"VTA call graph over-approximates dynamic dispatch on the storage interfaces", "sync/atomic CompareAndSwap semantics"},
@@ -219,8 +219,8 @@ func ruleSnapshotState(p *Prog, r *Report, rule string) {
 	ruleGuardedByInline(p, r, gbyTable{
 		fields: []gbyField{{"leveldb.Snapshot", "released", "leveldb.Snapshot.mu"}, {"leveldb.Snapshot", "elem", "leveldb.Snapshot.mu"}},
 		exceptions: map[string]string{
-			"(*leveldb.DB).newSnapshot|*":    "construction before the snapshot is shared",
-			"(*leveldb.Snapshot).String|*":   "diagnostic String() (no error-capable result; outside the rule's scope by design)",
+			"(*leveldb.DB).newSnapshot|*":  "construction before the snapshot is shared",
+			"(*leveldb.Snapshot).String|*": "diagnostic String() (no error-capable result; outside the rule's scope by design)",
 		},
 		requires: map[string][]string{},
 	}, []string{"leveldb"})
@@ -430,8 +430,14 @@ func ruleReadOnlyNeverMutates(p *Prog, r *Report, rule string) {
 		}{
 			{"recoverJournal", evCall("(*leveldb.DB).recoverJournal")},
 			{"checkAndCleanFiles", evCall("(*leveldb.DB).checkAndCleanFiles")},
-			{"go tCompaction", func(in ssa.Instruction) bool { g, ok := in.(*ssa.Go); return ok && isCallTo(g, "(*leveldb.DB).tCompaction") }},
-			{"go mCompaction", func(in ssa.Instruction) bool { g, ok := in.(*ssa.Go); return ok && isCallTo(g, "(*leveldb.DB).mCompaction") }},
+			{"go tCompaction", func(in ssa.Instruction) bool {
+				g, ok := in.(*ssa.Go)
+				return ok && isCallTo(g, "(*leveldb.DB).tCompaction")
+			}},
+			{"go mCompaction", func(in ssa.Instruction) bool {
+				g, ok := in.(*ssa.Go)
+				return ok && isCallTo(g, "(*leveldb.DB).mCompaction")
+			}},
 		}
 		for _, m := range mut {
 			checkGuard(p, r, GuardSpec{Rule: "only-when-writable:" + m.k, Fn: fn, Target: m.p, TargetDesc: m.k, Atoms: []Atom{ro}, G: func(a []bool) bool { return !a[0] }, GDesc: "¬readOnly", MinTargets: 1})
